@@ -4602,8 +4602,8 @@ def _parse_simple_lines(
                 body.append(
                     LCDWrite(
                         name=name,
-                        col=_to_c_expr(col_arg, vars, ctx),
-                        row=_to_c_expr(row_arg, vars, ctx),
+                        col=_evaluate_once(col_arg, _to_c_expr(col_arg, vars, ctx)),
+                        row=_evaluate_once(row_arg, _to_c_expr(row_arg, vars, ctx)),
                         text=_to_c_expr(text_arg, vars, ctx),
                         clear_row=_resolve_bool_arg(clear_arg, True),
                         align=_resolve_align_arg(align_arg),
@@ -4625,7 +4625,7 @@ def _parse_simple_lines(
                 body.append(
                     LCDLine(
                         name=name,
-                        row=_to_c_expr(row_arg, vars, ctx),
+                        row=_evaluate_once(row_arg, _to_c_expr(row_arg, vars, ctx)),
                         text=_to_c_expr(text_arg, vars, ctx),
                         align=_resolve_align_arg(align_arg),
                         clear_row=_resolve_bool_arg(clear_arg, True),
@@ -4712,7 +4712,7 @@ def _parse_simple_lines(
                 if level_arg is None or not level_arg.strip():
                     raise ValueError("LCD.brightness requires a level argument")
                 body.append(
-                    LCDBrightness(name=name, level=_to_c_expr(level_arg, vars, ctx))
+                    LCDBrightness(name=name, level=_evaluate_once(level_arg, _to_c_expr(level_arg, vars, ctx)))
                 )
                 i += 1
                 continue
@@ -4749,7 +4749,7 @@ def _parse_simple_lines(
                 body.append(
                     LCDGlyph(
                         name=name,
-                        slot=_to_c_expr(slot_arg, vars, ctx),
+                        slot=_evaluate_once(slot_arg, _to_c_expr(slot_arg, vars, ctx)),
                         bitmap=bitmap_list,
                     )
                 )
@@ -4778,8 +4778,8 @@ def _parse_simple_lines(
                 body.append(
                     LCDProgress(
                         name=name,
-                        row=_to_c_expr(row_arg, vars, ctx),
-                        value=_to_c_expr(value_arg, vars, ctx),
+                        row=_evaluate_once(row_arg, _to_c_expr(row_arg, vars, ctx)),
+                        value=_evaluate_once(value_arg, _to_c_expr(value_arg, vars, ctx)),
                         max_value=_resolve_numeric_arg(max_arg, 100),
                         width=_resolve_optional_numeric_arg(width_arg),
                         style=_resolve_style_arg(style_arg, "block"),
@@ -4816,7 +4816,7 @@ def _parse_simple_lines(
                     LCDAnimate(
                         name=name,
                         animation=animation_name,
-                        row=_to_c_expr(row_arg, vars, ctx),
+                        row=_evaluate_once(row_arg, _to_c_expr(row_arg, vars, ctx)),
                         text=_to_c_expr(text_arg, vars, ctx),
                         speed_ms=_resolve_numeric_arg(speed_arg, 200),
                         loop=_resolve_bool_arg(loop_arg, False),
